@@ -259,6 +259,30 @@ def pointee_size(f, e):
 
 # ------------------------------------------------------------------ single-assignment locals
 
+def _sig_params(sig):
+    """parameter type texts of a signature string '(T1, T2)const' (top-level commas only)"""
+    if not sig.startswith('('):
+        return []
+    depth = 0
+    cur = ''
+    out = []
+    for ch in sig[1:]:
+        if ch in '(<[':
+            depth += 1
+        elif ch in ')>]':
+            if depth == 0:
+                break
+            depth -= 1
+        if ch == ',' and depth == 0:
+            out.append(cur.strip())
+            cur = ''
+        else:
+            cur += ch
+    if cur.strip():
+        out.append(cur.strip())
+    return out
+
+
 def single_defs(f):
     """{var id: initialiser} for locals that are initialised at their declaration and never written again
     (no assignment, compound assignment, ++/--, and their address is not taken): such a local is just a name for its
@@ -284,6 +308,18 @@ def single_defs(f):
             tgt = strip_lv(e['e'])
         if tgt is not None and tgt.get('k') == 'var':
             defs.pop(tgt['id'], None)
+        # a non-const scalar passed to a call as an lvalue (bound to a reference parameter) may be written by the callee
+        if k in ('call', 'construct'):
+            ptypes = _sig_params(e.get('sig') or '')
+            for ai, a in enumerate(e.get('a', []) or []):
+                pt = ptypes[ai] if ai < len(ptypes) else None
+                if pt is not None and (not pt.endswith('&') or pt.startswith('const ')):
+                    continue        # by value or by reference to const: the callee cannot write it
+                x = a
+                while isinstance(x, dict) and x.get('k') == 'cast' and x.get('ck') == 'NoOp':
+                    x = x['e']
+                if isinstance(x, dict) and x.get('k') == 'var' and x.get('id') in defs and not T(f, x.get('dt') or x.get('t')).get('const'):
+                    defs.pop(x['id'], None)
     f['_single_defs'] = defs
     return defs
 
